@@ -35,21 +35,24 @@ def op_variants(op, n, c, nbits, rng, quick):
         ms.append({"mask": [False] * c, "value": 0})
         return ms
     if op == "extract_chans":
-        return [{"chans": [0]}, {"chans": [c - 1, 0]}, {"chans": list(range(c))}][: 2 if quick else 3]
+        return [{"chans": [0]}, {"chans": [c - 1, 0], "batch_size": 1}, {"chans": list(range(c)), "batch_size": 2},
+                {"chans": list(range(c))}][: 3 if quick else 4]
     if op == "extract_bands":
         out = []
         for cps in (2, 4, 8):
             for nc in (cps, 2 * cps, c):
                 for c0 in (0, c - nc, 1):
                     if 0 <= c0 and c0 + nc <= c and nc % cps == 0 and 2 <= cps <= nc and whole(cps):
-                        out.append({"chanstart": c0, "nchans": nc, "chanpersub": cps})
+                        for bs in ((1, 200) if nc // cps > 1 else (200,)):
+                            out.append({"chanstart": c0, "nchans": nc, "chanpersub": cps, "batch_size": bs})
         seen, uniq = set(), []
         for o in out:
             k = tuple(o.values())
             if k not in seen:
                 seen.add(k)
                 uniq.append(o)
-        return uniq[: 3 if quick else 8]
+        uniq.sort(key=lambda o: (-(o["nchans"] // o["chanpersub"]), o["batch_size"]))    # several bands, several batches first
+        return uniq[: 3 if quick else 10]
     if op == "downsample":
         out = [{"tf": tf, "ff": ff} for tf in (1, 2, 3) for ff in (1, 2, 4) if c % ff == 0 and whole(c // ff)
                and (tf, ff) != (1, 1)]
@@ -170,6 +173,7 @@ def run(v) -> None:
         cfg = dict(tr["spec"])
         cfg.update({"op": e["op"], "gulp": e["gulp"], "start": e["start"], "nsamps": e["nsamps"], "del": e["del"]})
         cfg.update(rec["params"])
+        cfg["history"] = rec.get("pre", [])
         cfg["subrange"] = bool(e["nsamps"] < tr["hdr"]["N"])
         cfg["multiblock"] = bool(e["gulp"] < e["nsamps"])
         clause = "OutputIsDef" if e["outcome"] == "ok" else "MustNotRaise"
